@@ -25,6 +25,7 @@ import (
 	"strconv"
 	"strings"
 	"sync"
+	"syscall"
 	"testing"
 	"time"
 
@@ -251,6 +252,12 @@ func TestVerifC31Worker(t *testing.T) {
 		}
 	}
 	only := os.Getenv("VERIF_C31_ONLY")
+	if lane := os.Getenv("VERIF_LANE"); lane == "" || lane == "plain" {
+		// a runaway allocation must kill this worker quickly (and be reported with its witness) instead of
+		// exhausting the machine; sanitizer lanes need their huge shadow mappings, so only here
+		lim := syscall.Rlimit{Cur: 24 << 30, Max: 24 << 30}
+		_ = syscall.Setrlimit(syscall.RLIMIT_AS, &lim)
+	}
 	runtime.GOMAXPROCS(g + 1)
 	debug.SetGCPercent(400)
 
@@ -390,6 +397,7 @@ func c31Spawn(c *kit.Ctx, dir string, k, w, n uint64, g int, from uint64, skip [
 	}
 	defer f.Close()
 	cmd.Stdout, cmd.Stderr = f, f
+	cmd.SysProcAttr = &syscall.SysProcAttr{Pdeathsig: syscall.SIGKILL} // workers never outlive the parent
 	if err := cmd.Start(); err != nil {
 		return outFile, err
 	}
@@ -412,6 +420,22 @@ func c31Tail(path string, n int) string {
 		b = b[len(b)-n:]
 	}
 	return string(b)
+}
+
+// c31CrashExcerpt returns the part of a dead worker's output that says why it died.
+func c31CrashExcerpt(path string, n int) string {
+	b, _ := os.ReadFile(path)
+	s := string(b)
+	first := -1
+	for _, marker := range []string{"fatal error:", "panic:", "SIGSEGV", "ERROR: AddressSanitizer", "runtime error:", "runtime: out of memory", "WARNING: DATA RACE"} {
+		if i := strings.Index(s, marker); i >= 0 && (first < 0 || i < first) {
+			first = i
+		}
+	}
+	if first < 0 {
+		return c31Tail(path, n)
+	}
+	return c31Trunc(s[first:], n)
 }
 
 func TestVerifC31Programs(t *testing.T) {
@@ -495,12 +519,12 @@ func TestVerifC31Programs(t *testing.T) {
 					if serr != nil {
 						confirmed = true
 						c.Violation("process-crash", map[string]any{"case": cs, "exit": serr.Error(), "reproduced_alone": true,
-							"output_tail": c31Tail(sout, 6000), "note": "the process evaluating this program died (fatal error, sanitizer abort or uncaught runtime failure)"})
+							"output": c31CrashExcerpt(sout, 6000), "note": "the process evaluating this program died (fatal error, sanitizer abort or uncaught runtime failure)"})
 					}
 					skip = append(skip, cs.Index)
 				}
 				if !confirmed {
-					c.Violation("process-crash", map[string]any{"candidates": cands, "exit": fmt.Sprint(err), "reproduced_alone": false, "output_tail": c31Tail(out, 6000)})
+					c.Violation("process-crash", map[string]any{"candidates": cands, "exit": fmt.Sprint(err), "reproduced_alone": false, "output": c31CrashExcerpt(out, 6000)})
 				}
 				from = minIdx
 			}
